@@ -35,7 +35,7 @@ type DField struct {
 	Verify   bool     `json:"ver,omitempty"`
 	MaxLen   int      `json:"max"` // -1: no MaxLen constraint on the field's data type
 	Pattern  string   `json:"pat,omitempty"`
-	Refs     []string `json:"refs,omitempty"`
+	Refs     []string `json:"refs"` // nil: not a reference field; empty: reference to anything
 }
 
 type DContainer struct {
@@ -117,6 +117,8 @@ type Dump struct {
 	Items []DItem `json:"items"`
 	// the same with the rules of every sys workspace sorted (Go map order of one statement's rules)
 	SysDigestCanon string `json:"sys_digest_canon,omitempty"`
+	// digest of IAppDef.ACL(): the application-wide rule list in its order
+	AppACLDigest string `json:"app_acl_digest,omitempty"`
 	// digest of everything in package sys (types, workspaces, ACL): must equal the digest of an
 	// application that declares nothing
 	SysDigest string `json:"sys_digest"`
@@ -410,6 +412,12 @@ func dumpApp(app appdef.IAppDef) Dump {
 	sort.Strings(sysCanon)
 	d.SysDigest = digest(strings.Join(sys, "\n"))
 	d.SysDigestCanon = digest(strings.Join(sysCanon, "\n"))
+	var all []string
+	for _, r := range app.ACL() {
+		js, _ := json.Marshal(dumpRule(r))
+		all = append(all, r.Workspace().QName().String()+" "+string(js))
+	}
+	d.AppACLDigest = digest(strings.Join(all, "\n"))
 	return d
 }
 
